@@ -3,8 +3,11 @@
 package alignd
 
 import (
+	"bytes"
+	"encoding/json"
 	"fmt"
 	"math/rand"
+	"os"
 
 	"github.com/biogo/biogo/align"
 	"github.com/biogo/biogo/alphabet"
@@ -172,6 +175,30 @@ func Bounded(w *vt.W, rng *rand.Rand, nm, maxLen int) {
 				}
 			}
 		}
+	}
+}
+
+// Calls repeats the recorded calls of an ndjson file (fields aligner, r, q, M, open; DNAgapped indices):
+// the witnesses of the known findings are re-run on the real aligners in every check run.
+func Calls(w *vt.W, path string) {
+	data, err := os.ReadFile(path)
+	if err != nil {
+		vt.Fatal("read %s: %v", path, err)
+	}
+	for _, line := range bytes.Split(data, []byte{'\n'}) {
+		if len(bytes.TrimSpace(line)) == 0 {
+			continue
+		}
+		var c struct {
+			Aligner string
+			R, Q    []int
+			M       [][]int
+			Open    int
+		}
+		if err := json.Unmarshal(line, &c); err != nil {
+			vt.Fatal("call: %v", err)
+		}
+		record(w, c.Aligner, alphabet.DNAgapped, c.R, c.Q, c.M, c.Open)
 	}
 }
 
